@@ -18,7 +18,8 @@ accepting ip buckets was listed once per bucket and its action merged twice);
 `stored_routes_may_repeat` keeps the kernel-checked witness that the traces themselves still store
 such a rule several times, i.e. that the final dedupe is what makes the clause true.
 -/
-import RioModel.Proofs.RouterTrace
+import RioModel.Proofs.RouterTreeTop
+import RioModel.Props.C08
 set_option linter.unusedSimpArgs false
 
 namespace Rio.C17
@@ -72,6 +73,34 @@ theorem trace_lists_once (ts : List Trace) : ((routesOfList ts).map (·.id)).Nod
 /-- Hence the route list the action trace starts from is a permutation of the match result. -/
 theorem trace_perm_match (E : Env) (S : Router E) (L : List Route) (h : RRepr E S L) (q : Req) :
     (routesOfList (S.trace E q)).Perm (S.matchReq E q) := rrepr_trace_perm E S L h q
+
+/-! ### The same statements with the two regex trees (and their traces) modelled as trees
+
+Over `towerTOps T` the tree part of the trace is `Item::trace` of Model/Tree.lean converted by the
+two `tree_trace_to_trace` functions (`pathTreeTrace`, `hostTreeTrace`): a node traces its children
+only when its prefix regex matched, a leaf lists its values, the router keeps them iff the leaf
+matched.  `RReprT`: any state reached by a valid history whose inserted rules have marker patterns
+in the domain of C08 (see `Rio.C02.repr_run_tree`). -/
+
+open Rio.Regex Rio.Tree in
+theorem trace_routes_tree (T : TEnv) (Good : List Char → Prop) (hPS : PrefixSound T.engine Good)
+    (S : RouterT T) (L : List Route) (h : RReprT T Good hPS S L) (q : Req) (r : Route) :
+    r ∈ routesOfList (RouterG.trace (towerTOps T) S q) ↔ r ∈ RouterG.matchReq (towerTOps T) S q :=
+  g_mem_trace T.env _ (towerTSpec T Good hPS) S L h q r
+
+open Rio.Regex Rio.Tree in
+theorem trace_perm_match_tree (T : TEnv) (Good : List Char → Prop) (hPS : PrefixSound T.engine Good)
+    (S : RouterT T) (L : List Route) (h : RReprT T Good hPS S L) (q : Req) :
+    (routesOfList (RouterG.trace (towerTOps T) S q)).Perm (RouterG.matchReq (towerTOps T) S q) :=
+  g_trace_perm T.env _ (towerTSpec T Good hPS) S L h q
+
+open Rio.Regex Rio.Tree in
+theorem final_priority_tree (T : TEnv) (Good : List Char → Prop) (hPS : PrefixSound T.engine Good)
+    (S : RouterT T) (L : List Route) (h : RReprT T Good hPS S L) (q : Req) :
+    (RouterG.getTrace (towerTOps T) S q).2.map (·.priority) =
+      (RouterG.getRoute (towerTOps T) S q).map (·.priority) := by
+  unfold RouterG.getTrace RouterG.getRoute
+  exact head_priority_congr _ _ (fun x => trace_routes_tree T Good hPS S L h q x)
 
 /-! ### The traces still store a rule once per accepting ip range
 
